@@ -7,6 +7,7 @@ package transport
 // recorded; the per-property oracles read the record.
 
 import (
+	"reflect"
 	"go.uber.org/zap"
 	"context"
 	"errors"
@@ -532,7 +533,13 @@ func (s *tsys) run() {
 		}
 	case "lazy-tcp":
 		// the lazily dialed connection of the pipeline transport, driven directly
-		s.direct = newLazyDnsConn(s.dialDns, 0, max(o.LazyQueue, 1), zap.NewNop())
+		// called through reflection: parameters a change appends (callbacks, options) get their zero value
+		fn := reflect.ValueOf(newLazyDnsConn)
+		args := []reflect.Value{reflect.ValueOf(s.dialDns), reflect.ValueOf(time.Duration(0)), reflect.ValueOf(max(o.LazyQueue, 1)), reflect.ValueOf(zap.NewNop())}
+		for i := len(args); i < fn.Type().NumIn(); i++ {
+			args = append(args, reflect.Zero(fn.Type().In(i)))
+		}
+		s.direct = fn.Call(args)[0].Interface().(DnsConn)
 	case "pipeline-tcp", "pipeline-udp":
 		s.tr = NewPipelineTransport(PipelineOpts{DialContext: s.dialDns, MaxConcurrentQueryWhileDialing: o.LazyQueue})
 	case "reuse":
